@@ -473,9 +473,9 @@ func judge(c *Case, o *obs) (vs []viol, outcome string) {
 			if idx < len(want) {
 				w = q(want[idx])
 			}
-			add(fmt.Sprintf("http-input handed data != lines of body: %s; line %s; enc=%s", kind, ctx, encClass(c)),
+			add(fmt.Sprintf("http-input handed data != lines of body: %s; line %s", kind, ctx),
 				fmt.Sprintf("datum #%d is %s, reference line is %s (handed %d data, body has %d lines)", idx, g, w, len(o.datas), len(want)),
-				map[string]any{"expected_lines": qs(want), "first_difference_at": idx})
+				map[string]any{"expected_lines": qs(want), "first_difference_at": idx, "line_longer_than_read_buffer": idx < len(want) && len(want[idx]) >= readBufLen})
 		}
 		switch {
 		case o.status != http.StatusOK:
